@@ -208,6 +208,71 @@ const T_SOFTWARE: u16 = 0x8022;
 const T_PRIORITY: u16 = 0x0024;
 const T_USE_CANDIDATE: u16 = 0x0025;
 
+// ------------------------------------------------------------------------------------------ glue records (suite absglue)
+// With `--glue 1` the binary runs the same histories but writes, instead of the history records, one record per sampled
+// packet:  C P <s|c> <realm tokens> <packet hex>   /   I <class> <method> <abstract tokens> | MALFORMED
+// s = a packet the client sent, read by abstract_packet; c = a packet crafted from the abstract tokens (before any framing
+// damage). The Gallina function AbsGlue.abs_packet must read the same bytes the same way.
+static GLUE: std::sync::Mutex<Option<(Vec<String>, u64, u64)>> = std::sync::Mutex::new(None);
+fn glue_record(kind: &str, realms: &[u32], intended: &str, b: &[u8], abs: String) {
+    if let Some((v, seen, stride)) = GLUE.lock().unwrap().as_mut() {
+        *seen += 1;
+        if *seen % *stride == 0 {
+            let rs = if realms.is_empty() { "-".to_string() } else { realms.iter().map(|r| r.to_string()).collect::<Vec<_>>().join(",") };
+            v.push(format!("C P {} {} {}{}", kind, rs, intended, hex(b)));
+            v.push(format!("I {}", abs));
+        }
+    }
+}
+fn glue_sent(realms: &[u32], b: &[u8]) {
+    let abs = match abstract_packet(b, realms) {
+        Some((class, method, attrs)) => format!("{} {} {}", class, method, toks(&attrs)),
+        None => "MALFORMED".to_string(),
+    };
+    glue_record("s", realms, "", b, abs);
+}
+fn glue_crafted(base_realms: &[u32], class: u8, method: u16, attrs: &[A], bytes: &[u8]) {
+    glue_record("c", &realms_of(attrs, base_realms), &format!("{} {} {} ", class, method, toks(attrs)), bytes,
+                format!("{} {} {}", class, method, toks(&recoverable(attrs))));
+}
+fn glue_replay(f: &[&str]) {
+    let realms: Vec<u32> = if f[3] == "-" { vec![] } else { f[3].split(',').map(|x| x.parse().unwrap()).collect() };
+    if f[2] == "s" {
+        glue_sent(&realms, &unhex(f[4]));
+    } else {
+        let old = unhex(f[7]);
+        let txid: [u8; 12] = old[8..20].try_into().unwrap();
+        let attrs = parse_toks(f[6]);
+        let (class, method) = (f[4].parse().unwrap(), f[5].parse().unwrap());
+        glue_crafted(&realms, class, method, &attrs, &craft(class, method, &txid, &attrs));
+    }
+}
+/// what reading the crafted bytes back can recover of the intended tokens: the tag of a generic application attribute is
+/// only its (truncated, zero-padded) value bytes
+fn recoverable(attrs: &[A]) -> Vec<A> {
+    attrs.iter().map(|a| match a {
+        A::App(t, g) if *t != T_SOFTWARE && *t != T_PRIORITY => {
+            let n = if *t == T_USE_CANDIDATE { 0 } else { (*g as usize % 5).min(4) };
+            let mut x = [0u8; 4];
+            x[..n].copy_from_slice(&g.to_be_bytes()[..n]);
+            A::App(*t, u32::from_be_bytes(x))
+        }
+        other => other.clone(),
+    }).collect()
+}
+fn realms_of(attrs: &[A], base: &[u32]) -> Vec<u32> {
+    let mut v = base.to_vec();
+    let mut add = |r: u32| if !v.contains(&r) { v.push(r) };
+    for a in attrs {
+        match a {
+            A::Realm(r) | A::UserHash(_, r) => add(*r),
+            A::Mi(KeyD::Lt(r, _, _)) | A::Sha(KeyD::Lt(r, _, _)) => add(*r),
+            _ => {}
+        }
+    }
+    v
+}
+
 /// craft the bytes of an abstract message (the fake server / attacker)
 fn craft(class: u8, method: u16, txid: &[u8; 12], attrs: &[A]) -> Vec<u8> {
     let mut r = Raw::new(method, class, txid);
@@ -550,8 +615,14 @@ impl Run {
                     } else {
                         let realms = self.realms.clone();
                         match abstract_packet(b, &realms) {
-                            Some((class, method, attrs)) => items.push(format!("out:{}:1:{}:{}:{}", n, class, method, toks(&attrs))),
-                            None => items.push(format!("out:{}:1:MALFORMED", n)),
+                            Some((class, method, attrs)) => {
+                                glue_sent(&realms, b);
+                                items.push(format!("out:{}:1:{}:{}:{}", n, class, method, toks(&attrs)))
+                            }
+                            None => {
+                                glue_sent(&realms, b);
+                                items.push(format!("out:{}:1:MALFORMED", n))
+                            }
                         }
                         // does stun-rs itself decode what the client emitted?
                         let ok = MessageDecoderBuilder::default().build().decode(b).map(|(_, s)| s == b.len()).unwrap_or(false);
@@ -644,6 +715,7 @@ impl Run {
             Op::Recv { now, decodable, class, method, id, attrs } => {
                 let txid = self.txid_of(*id);
                 let mut bytes = craft(*class, *method, &txid, attrs);
+                glue_crafted(&self.realms, *class, *method, attrs, &bytes);
                 if !*decodable {
                     // undecodable: break the framing (length field beyond the buffer) or the cookie
                     if attrs.len() % 2 == 0 { bytes[4] ^= 0x55 } else { let l = bytes.len(); bytes.truncate(l - 1) }
@@ -962,10 +1034,24 @@ fn replay(lines: Vec<String>, out: &mut Out) {
 fn main() {
     let args = Args::parse();
     let mut out = args.writer();
+    let glue = args.get("glue").is_some();
     if let Some(lines) = args.replay_lines() {
-        replay(lines, &mut out);
+        if glue {
+            *GLUE.lock().unwrap() = Some((vec![], 0, 1));
+            for l in &lines {
+                let f: Vec<&str> = l.split(' ').collect();
+                if f.len() >= 5 && f[0] == "C" && f[1] == "P" { glue_replay(&f) }
+            }
+            for l in &GLUE.lock().unwrap().take().unwrap().0 { out.rec(l) }
+        } else {
+            replay(lines, &mut out);
+        }
         out.finish();
         return;
+    }
+    if glue {
+        *GLUE.lock().unwrap() = Some((vec![], 0, if args.thorough { 8 } else { 25 }));
+        out = Out::sink();
     }
     let mut rng = args.rng(0xA6E7);
     let total = args.get("histories").map(|s| s.parse().unwrap()).unwrap_or(if args.thorough { 120000 } else { 1600 });
@@ -976,6 +1062,14 @@ fn main() {
     }
     let mut s: Vec<String> = stats.iter().map(|(k, v)| format!("{}={}", k, v)).collect();
     s.sort();
+    if glue {
+        let mut real = args.writer();
+        let (v, seen, stride) = GLUE.lock().unwrap().take().unwrap();
+        for l in &v { real.rec(l) }
+        real.note(&format!("suite=absglue packets_seen={} stride={} records={}", seen, stride, v.len() / 2));
+        real.finish();
+        return;
+    }
     out.note(&format!("suite=agent histories={} {}", mine, s.join(" ")));
     out.finish();
 }
